@@ -22,8 +22,8 @@ NA = {
 CHECKS = {
  "C13": dict(
    engine="histsim",
-   technique="deterministic simulation of seeded call histories with injected function faults; 3-process replay (in-order, re-batched, history-free) and in-order pass under specialized builds",
-   text="Exploration: seeded search over call histories (re-used and cloned handles, shared / composed / fed-back / reallocated documents, three runtimes, searches failing midway through injected function faults). Every call's outcome is compared with the same call made earlier in the process, in a second process with a different batch, and history-free in a third process; documents, earlier results and the literals held by every live handle are snapshotted around each search. Right level because the property is over histories and the library has no specification-free oracle other than itself; a clean batch is evidence, not proof.",
+   technique="deterministic simulation of seeded call histories with injected function faults; 3-process replay (in-order, re-batched, history-free) under the default and the specialized build, in-order pass under sync+specialized",
+   text="Exploration: seeded search over call histories (re-used and cloned handles, shared / composed / fed-back / reallocated documents, three runtimes, searches failing midway through injected function faults). Every call's outcome is compared with the same call made earlier in the process, in a second process with a different batch, and history-free in a third process (under the default build and again under `specialized`, where caller and interpreter really share values); documents, earlier results and the literals held by every live handle are snapshotted around each search. Right level because the property is over histories and the library has no specification-free oracle other than itself; a clean batch is evidence, not proof.",
    note="Trusted: Debug rendering as the observable; the simulator's own generators and bookkeeping; cargo fingerprinting to rebuild from /repo. Panics are compared as outcomes, not alarmed.",
    design="4.1"),
  "C17": dict(
@@ -40,8 +40,8 @@ CHECKS = {
    design="4.2"),
  "C16": dict(
    engine="thrsim",
-   technique="deterministic thread simulation: seeded scenarios under Miri's seeded scheduler with data-race/deadlock detection, compared with a sequential run; compile-time Send/Sync obligations",
-   text="Exploration: seeded multi-thread scenarios (shared expressions, shared documents, first use of the default runtime inside the race) executed under Miri with many scheduler seeds and preemption rates; every execution must equal the sequential result and Miri must report no data race, deadlock, UB or panic. Send/Sync obligations are compiled under --features sync.",
+   technique="deterministic thread simulation: seeded scenarios (classes race / late / pool / deep / hot / general) under Miri's seeded scheduler with data-race and deadlock detection, each execution compared with the sequential run; deterministic native serial-threads pass; compile-time Send/Sync obligations",
+   text="Exploration: seeded multi-thread scenarios (shared expressions, shared documents, first use of the default runtime inside or just before the race, steady-state compiling of the same texts, five threads deep in nested calls, thousand-call hot functions in the thorough tier) executed under Miri with many scheduler seeds and preemption rates, under sync and sync+specialized; every execution must equal the sequential result and Miri must report no data race, deadlock, UB, leak or panic. Thousands of scenarios are also run natively with each thread's operations on its own thread, one thread after the other (deterministic: exposes dependence on thread identity). Send/Sync obligations are compiled under --features sync.",
    note="Trusted: Miri's scheduler and race detector; sampling of schedules, not enumeration.",
    design="4.3"),
  "C18": dict(
